@@ -36,7 +36,8 @@ RULE = ("statement trees (depth 0..6, fan-out 0..5, first statement level may be
         "through) and the lines as list or tuple; stream args (170) = values the entry points must refuse, several at once so that "
         "the order of the checks shows: input_list as tuple / None / str / int / dict, stop_width '4' / 4.0 / None, comment_delimiters as "
         "str / tuple / set or holding a brace, debug not an int, an empty list, config_txt None / int, syntax 'f5' / None / 'JUNOS' / '', "
-        "a tuple of lines with syntax junos (known finding FC08a); stream blankstmt (110) = trees with statements that are a lone ';' "
+        "a tuple of lines with syntax junos (must parse to the tree of the list form: texts and parents are compared with the statement "
+        "tree; it was refused before the repair of finding FC08a); stream blankstmt (110) = trees with statements that are a lone ';' "
         "(they convert to blank lines) parsed with ignore_blank_lines on and off, the oracle expecting the flattening without those "
         "statements when the option is on. Not generated: a first argument of CiscoConfParse that is no sequence of lines (file names: "
         "C09/C10), a stop_width of BraceParse that is not an int (refused by typeguard before the code runs).")
@@ -59,8 +60,9 @@ LEVEL_TEXT = ("Theorems (Lean 4, all well-formed statement trees, all layouts wh
               "(junos_options); the argument ladder of convert_junos_to_ios (tuple / non-list, non-int stop_width, non-list delimiters, "
               "non-int debug: InvalidParameters in that order; empty list or a brace among the delimiters: ValueError; "
               "convert_argument_checks), BraceParse(None) = NotImplementedError, handle_ccp_brace_syntax (invalid syntax, then non-sequence: "
-              "InvalidParameters; indentation syntaxes pass list and tuple through; junos converts a list and refuses a tuple; "
-              "handleBrace_spec, junos_tuple_refused); options_default ties the option model to the model above at the default values.")
+              "InvalidParameters; indentation syntaxes pass list and tuple through; junos converts a list and a tuple alike; "
+              "handleBrace_spec, junos_tuple_is_list: the parse of a tuple of lines is the parse of the list, junos_tree_tuple: hence the "
+              "statement tree -- they replace junos_tuple_refused, which stated the refusal before finding FC08a was repaired in /repo); options_default ties the option model to the model above at the default values.")
 LEVEL_NOTE = ("Trusted: Lean kernel; axioms propext/Classical.choice/Quot.sound only; the correspondence harness; pyparsing is "
               "modelled, not verified (behaviour re-implemented by hand and measured). Hypotheses of the theorems: words are "
               "non-empty visible ASCII without braces, the first word of a statement does not start with a quote (F31), the last "
@@ -69,9 +71,10 @@ LEVEL_NOTE = ("Trusted: Lean kernel; axioms propext/Classical.choice/Quot.sound 
               "semicolon_end=True: only the token-level statement is proved (semicolon_end_partial: the statement text is the stripped "
               "token, semicolon included); that the conversion of a rendered tree keeps exactly the semicolons the layout wrote is "
               "measured (stream opts, oracle) — not proved. The factory has no parameter in the model (it only chooses the class of the "
-              "line objects); factory=True parses are compared with the same model answer. Known finding FC08a: "
-              "CiscoConfParse(tuple_of_lines, syntax='junos') raises InvalidParameters (handle_ccp_brace_syntax lets a tuple through, "
-              "convert_junos_to_ios insists on a list); modelled as the code does it, proposed patch notes/proposed-fixes/C08-1.patch. "
+              "line objects); factory=True parses are compared with the same model answer. Finding FC08a "
+              "(CiscoConfParse(tuple_of_lines, syntax='junos') raised InvalidParameters: handle_ccp_brace_syntax let a tuple through, "
+              "convert_junos_to_ios insists on a list) is repaired in /repo by 'fix: CiscoConfParse accepts a tuple of lines with "
+              "syntax='junos''; convert_junos_to_ios called directly still refuses a tuple (convert_argument_checks). "
               "Anchored lines never executed by the quick run: 40 of 134 before the option/argument streams, 11 after: debug logging, the "
               "unreachable final else of handle_ccp_brace_syntax, bootstrap's own argument checks and the banner / macro passes of the "
               "indentation syntaxes (C01/C07), which a brace syntax skips.")
@@ -391,7 +394,8 @@ def args_case(rng):
         return mkx("args", "hb", lines, syn=rng.choice(["J", "I", "X", "X"]), synname=rng.choice(["ios", "asa"]),
                    badsyn=rng.choice(["f5", None, "JUNOS", ""]), form=rng.choice(["L", "T", "X", "X"]))
     # (a value that is no sequence of lines at all is the constructor's business — file names, C09/C10 — not generated)
-    return mkx("args", "pw", lines, form="T", ign=rng.random() < 0.3)
+    # a tuple of lines through the whole constructor: judged like the list form (texts and parents of the statement tree)
+    return mkx("opts", "pw", lines, form="T", ign=rng.random() < 0.3, tree=base["tree"], style=base["style"], semis=base["semis"])
 
 
 def blank_case(rng):
@@ -732,8 +736,6 @@ def _impl_parents(case):
 
 
 def known_id(case, failure):
-    if failure.startswith("tuple-input:") and "InvalidParameters" in failure and case.get("form") == "T":
-        return "FC08a"
     if case["kind"] == "quotestart" and failure.startswith("texts differ") and \
             any(isq(n[0][0]) for n in _walk(case["tree"])):
         return "F31"
